@@ -202,6 +202,11 @@ func buildScript(seed uint64, p *ScriptPlan) (*built, error) {
 	if !p.Compress {
 		from, to = 0, 0
 	}
+	if p.LegacyVer != 0 {
+		// legacy_version of the inner hello as the client chose it (the offer of
+		// TLS 1.3 is in supported_versions)
+		inner.Version = p.LegacyVer
+	}
 
 	// --- stage A: the inner hello itself
 	if hasMut(p.Mutations, "inner-no-ech") != nil {
@@ -573,6 +578,18 @@ func buildScript(seed uint64, p *ScriptPlan) (*built, error) {
 			body = append(body, byte(m.B>>(8*i)))
 		}
 		b.outerRec = echbox.Record(22, recVer, echbox.Handshake(1, body))
+	}
+	if m := hasMut(p.Mutations, "outer-zeros"); m != nil {
+		// zero bytes appended to the authentic outer hello in transit: after the
+		// extensions inside the message, or after the message inside the record
+		// (neither length is covered by the AAD)
+		body := o2.Body()
+		zeros := make([]byte, 1+m.A%64)
+		if m.B%2 == 0 {
+			b.outerRec = echbox.Record(22, recVer, echbox.Handshake(1, append(body, zeros...)))
+		} else {
+			b.outerRec = echbox.Record(22, recVer, append(echbox.Handshake(1, body), zeros...))
+		}
 	}
 	if len(b.outerRec) > 5+16384 {
 		return nil, errSkip // not a legal plaintext record
